@@ -288,6 +288,32 @@ pub fn value_reference(m: &Model, ctx: &mut Ctx, rule: &str) {
         ("ENUMERATED { first, same }", Val::Ctor("Enumerated".into(), vec![Val::Opaque("enumerated".into())], Map::new())),
         ("BOOLEAN", Val::Ctor("Boolean".into(), vec![Val::Opaque("boolean".into())], Map::new())),
     ];
+    // `b T ::= object.&field`: such a path is resolved for no governor — it must be answered with an error (a warning for the
+    // definition), whatever the governor; an arm that takes it for a plain identifier leaves the bare reference in place
+    for (label, ty) in governors.iter() {
+        let key = format!("object-field-reference:{}", label.split(' ').next().unwrap_or(label));
+        if label.contains("first(1)") {
+            continue;
+        }
+        ctx.oblige(rule, &key, true);
+        let value = named("ElsewhereDeclaredValue", vec![("identifier", Val::Str("id".into())), ("parent", Val::some(Val::Str("object.&".into()))), ("module", Val::none())]);
+        let mut env = Env::new();
+        env.insert("self".into(), value.clone());
+        env.insert(params.first().cloned().unwrap_or("tlds".into()), Val::Opaque("tlds".into()));
+        env.insert(params.get(1).cloned().unwrap_or("ty".into()), ty.clone());
+        env.insert(params.get(2).cloned().unwrap_or("type_name".into()), Val::none());
+        let r = ev.select_arm(&mt, &Val::Tuple(vec![ty.clone(), value]), &env).and_then(|(i, mut e2)| {
+            let out = ev.eval(&mt.arms[i].body, &mut e2)?;
+            Ok((out, e2.get("self").map(|v| v.show()).unwrap_or_default(), span_line(&mt.arms[i])))
+        });
+        match r {
+            Ok((Val::Ctor(n, _, _), _, _)) if n == "Err" => {}
+            Ok((_, sh, _)) if !sh.contains("ElsewhereDeclaredValue") => {}
+            Ok((out, sh, line)) => ctx.violate(rule, &key, &f.file, line,
+                &format!("`b T ::= object.&id` with T ::= {}: link_with_type returns {} and leaves the value as `{}` — no error, no resolution: the generators render it as `T(ID)` without a warning", label, out.show(), sh.chars().take(90).collect::<String>())),
+            Err(e) => ctx.fail_closed(rule, &format!("[{}]: {}", key, e)),
+        }
+    }
     for (label, ty) in governors {
         let key = format!("value-reference:{}", label.split(' ').next().unwrap_or(label));
         let key = if label.contains("first(1)") { format!("{}-with-named-numbers", key) } else { key };
@@ -715,6 +741,8 @@ Not applicable (run-time values): resolution of references, nested CHOICE/SEQUEN
             env.insert(ps[2].clone(), dist.clone());
             match ev.eval_fn_body(&f.block, &mut env) {
                 Ok(v) => {
+                    // the helper may return the bits or Ok(bits)
+                    let v = match v { Val::Ctor(n, mut p, _) if n == "Ok" && p.len() == 1 => p.remove(0), o => o };
                     let w = Val::List(want.iter().map(|b| Val::Bool(*b)).collect());
                     if v != w {
                         ctx.violate("C07.bits", "named-bits", &f.file, f.line, &format!("named bits [{}] over a(0) b(2) c(5) denote {}, computed {}", key, w.show(), v.show()));
